@@ -1,2 +1,171 @@
-//! C03 — every outbound payment reaches a truthful terminal outcome (work in progress).
-fn main() {}
+//! C03 — every outbound payment reaches a truthful terminal outcome.
+use netsim::ext_c03::*;
+use netsim::ops::*;
+use netsim::oracle_commit::dump_history;
+use netsim::rec::install_recording_signer;
+use netsim::sim::*;
+use proptest::prelude::*;
+use serde::{Deserialize, Serialize};
+use serde_json::json;
+use vcore::*;
+
+#[derive(Clone, Debug, Serialize, Deserialize)]
+struct Case {
+	spec: WorldSpec,
+	ops: Vec<XOp>,
+	/// per claimable payment at the end: 0-2 claim, 3-4 fail back, 5 ignore until it times out
+	final_choices: Vec<u8>,
+}
+
+fn base_weights(chain: bool) -> OpWeights {
+	OpWeights {
+		claim: 9,
+		fail: 4,
+		deliver: 16,
+		flush: 2,
+		events: 8,
+		forwards: 6,
+		disconnect: 2,
+		reconnect: 5,
+		timer: 3,
+		async_toggle: 1,
+		complete: 4,
+		pump: 7,
+		force_close: if chain { 2 } else { 0 },
+		mine: if chain { 3 } else { 0 },
+		..OpWeights::zero()
+	}
+}
+
+fn weights(chain: bool, restart: bool) -> XWeights {
+	XWeights {
+		base: base_weights(chain),
+		send_route: 9,
+		underpay: 2,
+		mpp: 6,
+		router: 5,
+		keysend: 3,
+		dup: 3,
+		abandon: 2,
+		async_s: 3,
+		interrupt: 5,
+		snapshot: if restart { 5 } else { 0 },
+		restart: if restart { 4 } else { 0 },
+		mine_many: if chain { 2 } else { 0 },
+	}
+}
+
+fn spec_strategy() -> impl Strategy<Value = WorldSpec> {
+	world_spec(vec![Topology::Pair, Topology::Pair, Topology::Line3, Topology::Line3, Topology::Line3, Topology::Line4, Topology::Diamond, Topology::Diamond, Topology::Diamond, Topology::Line3Parallel]).prop_map(|mut s| {
+		// short forwarding deltas keep the horizon at which every HTLC has timed out within a few hundred blocks
+		s.cltv_delta = 72 + (s.cltv_delta - 72) % 12;
+		s
+	})
+}
+
+fn strat(max_ops: usize, chain: bool, restart: bool) -> impl Strategy<Value = Case> {
+	(spec_strategy(), proptest::collection::vec(xop_strategy(weights(chain, restart)), 8..max_ops), proptest::collection::vec(0u8..6, 4)).prop_map(|(spec, ops, final_choices)| Case { spec, ops, final_choices })
+}
+
+fn oracle(c: &Case, ctx: &mut Ctx) -> CaseResult {
+	let t0 = std::time::Instant::now();
+	let mut sim = c.spec.build(false);
+	dbg_line(&format!("TIMING build {} ms", t0.elapsed().as_millis()));
+	if let Err(e) = sim.c03_seed_graphs() {
+		return Err(Failure::new("harness-graph-seed", e));
+	}
+	let mut st = C03::new(&mut sim);
+	let mut tags: Vec<&'static str> = vec![];
+	let r = run(c, ctx, &mut sim, &mut st, &mut tags);
+	if ctx.replay && r.is_err() {
+		println!("==== ops ====");
+		for (i, (op, t)) in c.ops.iter().zip(tags.iter()).enumerate() {
+			println!("{:>3} {:<18} {:?}", i, t, op);
+		}
+		println!("==== payments ====");
+		for (i, m) in st.meta.iter().enumerate() {
+			println!("pay#{} {:?} to n{} amt={} api={} send@{} claim@{:?} claimed_ev={} sent@{:?} failed@{:?} absent@{:?} predated={} onchain_claim@{:?}", i, m.kind, m.to, m.amt, m.api, m.send_step, m.claim_step, m.claimed_event, m.sent_obs, m.failed_obs, m.absent_since, m.predated, m.onchain_claim_step);
+		}
+		println!("restarts (step, snapshot step): {:?}; foreign: {:?}", st.restarts, st.co_dead);
+		println!("==== history ====\n{}", dump_history(&sim));
+	}
+	r
+}
+
+fn run(c: &Case, ctx: &mut Ctx, sim: &mut Sim, st: &mut C03, tags: &mut Vec<&'static str>) -> CaseResult {
+	let t0 = std::time::Instant::now();
+	for op in c.ops.iter() {
+		let tag = st.apply(sim, &c.spec, op)?;
+		tags.push(tag);
+		if tag == "restart-failed" {
+			// deserialization of legally persisted state is C10's verdict
+			ctx.label("foreign-failure:C10:restart-deserialization");
+			return Ok(());
+		}
+		st.step(sim)?;
+	}
+	dbg_line(&format!("TIMING ops {} ms n_ops {}", t0.elapsed().as_millis(), c.ops.len()));
+	let quiet = st.end_game(sim, &c.final_choices, 420)?;
+	st.finish(sim, quiet)?;
+
+	let s = st.stats.clone();
+	ctx.label(match c.spec.topo {
+		Topology::Pair => "topo:pair",
+		Topology::Line3 => "topo:line3",
+		Topology::Line4 => "topo:line4",
+		Topology::Diamond => "topo:diamond",
+		Topology::Line3Parallel => "topo:line3-parallel",
+	});
+	ctx.label(if quiet { "resolved-and-quiescent" } else { "not-quiescent-at-horizon" });
+	if let Some(f) = &st.co_dead {
+		ctx.label(&format!("foreign-failure:C01:{}", f));
+	}
+	for l in s.labels.iter() {
+		ctx.label(l);
+	}
+	for t in ["send-route", "send-underpaid", "send-mpp", "send-router", "send-keysend", "dup-refused", "abandon", "interrupt", "restart", "force-close", "mine-many", "async-on"] {
+		ctx.label_if(tags.contains(&t), &format!("op:{}", t));
+	}
+	ctx.label_if(s.sent > 0, "payment-sent");
+	ctx.label_if(s.failed > 0, "payment-failed");
+	ctx.label_if(s.sends_refused > 0, "send-refused-by-api");
+	ctx.label_if(s.path_failed_attributed > 0, "path-failure-attribution-checked");
+	ctx.label_if(s.redelivered_removals > 0, "fulfil-or-fail-redelivered-after-reconnect");
+	ctx.label_if(s.repeats_after_restart > 0, "terminal-event-repeated-after-restart");
+	ctx.label_if(s.stale_restarts > 0, "restart-from-snapshot-predating-a-send");
+	ctx.label_if(s.absent_after_restart > 0, "payment-unlisted-after-restart");
+	ctx.label_if(s.lost_payments > 0, "payment-lost-by-restart");
+	ctx.label_if(s.onchain_claims > 0, "htlc-claimed-on-chain");
+	ctx.label_if(s.s_chan_closed, "sender-channel-closed");
+	ctx.label_if(s.mixed_mpp > 0, "mpp-sent-with-unfulfilled-part");
+	ctx.label_if(s.accounting_exact > 0, "amount-plus-fee-checked-exactly");
+	ctx.label_if(s.accounting_overstated > 0, "amount-plus-fee-overstated-after-onchain-loss");
+	ctx.label_if(s.balance_checked, "sender-balance-decrease-checked");
+	let restart_between = st.meta.iter().any(|m| (!m.sent_obs.is_empty() || !m.failed_obs.is_empty()) && st.restarts.iter().any(|r| r.0 > m.send_step && r.0 < *m.sent_obs.first().or(m.failed_obs.first()).unwrap()));
+	ctx.label_if(restart_between, "restart-between-send-and-terminal-event");
+	let terminal = s.sent + s.failed > 0;
+	ctx.sub_evaluations(s.sent + s.failed + s.path_failed + s.dup_refused);
+	ctx.nontrivial_if(terminal && (s.redelivered_removals > 0 || restart_between || s.mixed_mpp > 0 || s.onchain_claims > 0 || (s.s_chan_closed && s.failed > 0)));
+	ctx.summary(json!({"topo": format!("{:?}", c.spec.topo), "type": format!("{:?}", c.spec.ctype), "ops": tags, "payments": st.meta.iter().map(|m| format!("{:?}:{}{}", m.kind, if !m.sent_obs.is_empty() { "sent" } else if !m.failed_obs.is_empty() { "failed" } else if m.api_ok { "open" } else { "refused" }, if m.predated { "(restart predates send)" } else { "" })).collect::<Vec<_>>(), "restarts": st.restarts.len()}));
+	Ok(())
+}
+
+fn main() {
+	install_recording_signer();
+	let mut c = Check::new("C03", "exploration");
+	c.assume("all nodes are unmodified LDK nodes; the sender S (node 0) funds its channels and is the only payer; messages are delivered FIFO per direction, individually, at generated times");
+	c.assume("restarts of S use any ChannelManager snapshot taken earlier in the run (stale managers are legal per the ChannelManager persistence docs) with, per channel, the durable or the latest written ChannelMonitor image");
+	c.assume("'eventually' is decided at a bounded end game (settle, resolve claimable payments by generated choice, mine up to 420 blocks); runs that do not reach quiescence with chain resolution complete are labelled, not flagged");
+	c.part_with(
+		PartSpec {
+			name: "lifecycle",
+			rule: "wip",
+			quick_cases: 1500,
+			thorough_cases: 60_000,
+			max_shrink: 300,
+		},
+		|| strat(45, true, true),
+		oracle,
+	);
+	c.finish();
+}
